@@ -365,12 +365,24 @@ class Rig:
 
         patch(peermod.Peer, '_read_open', _read_open)
 
+        real_read_ka = peermod.Peer._read_ka
+
+        async def _read_ka(peer):
+            try:
+                return await real_read_ka(peer)
+            except Notify as n:
+                if bytes(n.data).startswith(b'hold timer expired while waiting'):
+                    rig.ev('HoldExpire')
+                raise
+
+        patch(peermod.Peer, '_read_ka', _read_ka)
+
         real_send_phase = peermod.Peer._send_operational_messages
 
         async def _send_operational_messages(peer):
             # first call of the send phase of a main-loop iteration: the stimulus "the loop has something
             # to send" (queued ROUTE-REFRESH, pending routes) is logged before the sends
-            if peer.neighbor.refresh or peer.neighbor.rib.outgoing.pending():
+            if peer.proto is not None and (peer.neighbor.refresh or peer.neighbor.rib.outgoing.pending()):
                 rig.ev('Tick')
             return await real_send_phase(peer)
 
@@ -681,14 +693,19 @@ def run_script(steps, conf=CONF, gap=0.5, trace_exc=False):
                 from exabgp.bgp.message.refresh import RouteRefresh
                 from exabgp.protocol.family import AFI, SAFI
 
-                rig.ev('ApiRefresh', None)
-                rig.neighbor.refresh.append(RouteRefresh.make_route_refresh(AFI.ipv4, SAFI.unicast))
+                if rig.neighbor.refresh:
+                    skipped.append(i)  # the model keeps ONE queued ROUTE-REFRESH (a boolean)
+                else:
+                    rig.ev('ApiRefresh', None)
+                    rig.neighbor.refresh.append(RouteRefresh.make_route_refresh(AFI.ipv4, SAFI.unicast))
             elif what == 'upfail':
                 rig.ev('ProcessBroken', None)
                 rig.proc.fail_up = True
             else:
                 raise ValueError(what)
-            await asyncio.sleep(after)
+            # the offset keeps the driver's timestamps away from the peer's own timers (100 ms pauses): a
+            # stimulus never falls in the same loop iteration as a timer of the peer task
+            await asyncio.sleep(after + 0.01371)
             rig.collect()
         await asyncio.sleep(gap)
         rig.end = len(rig.log)
